@@ -1652,6 +1652,9 @@ class mulgrid(object):
                 name = self.layer_name_from_number(num, justfn, chars, spaces)
             self.add_layer(layer(name, z, centre))
         self.identify_layer_tops()
+        for col in self.columnlist:
+            # (a surface that is not at the new top has to be written to file:)
+            if col.surface is not None: col.default_surface = (col.surface == top_elevation)
 
     def from_gmsh(self, filename, layers, convention = 0, atmos_type = 2,
                   top_elevation = 0, justify = 'r', chars = ascii_lowercase,
